@@ -445,7 +445,7 @@ pub fn run(ctx: &mut Ctx) {
             }
         }
     });
-    let cases = ctx.tier.pick(15_000u32, 400_000);
+    let cases = ctx.tier.pick(30_000u32, 400_000);
     let nthreads = ctx.threads as u32;
     ctx.parallel(|ti, _n, st| {
         let strat = (gen::history_strategy(10), 0u32..4, -1i32..3).prop_map(|(mut h, t, o)| {
